@@ -168,11 +168,18 @@ class C06(Check):
                                 out.stats["poison_accepted"] += 1
                             except Exception:
                                 out.stats["poison_rejected"] += 1
+                    import copy as _copy
+                    snap = _copy.deepcopy(v)
                     try:
                         real_bytes = pydsdl.serialize(real, v)
                     except Exception as ex:
                         out.fail("C06.bytes", "%s: serialize raised %s: %s" % (where, type(ex).__name__, ex), "serialize-raised:" + type(ex).__name__)
                         continue
+                    if not same_object_graph(v, snap):
+                        # the value is the caller's: a call that rewrites it changes what every later call with the same object
+                        # (another type, another revision) encodes
+                        out.fail("C06.bytes", "%s: serialize() modified the caller's value object: now %r" % (where, v), "argument-modified")
+                        v = snap
                     out.stats["messages"] += 1
                     if real_bytes != ref_bytes:
                         out.fail("C06.bytes", "%s: pydsdl %s, reference peer %s" % (where, real_bytes.hex(), ref_bytes.hex()), "bytes:" + first_diff_kind(res, sec, marks, real_bytes, ref_bytes))
@@ -213,8 +220,13 @@ class C06(Check):
                     rv = V.relax(rng, sec, v)
                     if rv is not None and rv != v:
                         out.stats["relaxed_forms"] += 1
+                        rsnap = _copy.deepcopy(rv)
                         try:
                             xb = pydsdl.serialize(real, rv, relaxed=True)
+                            if not same_object_graph(rv, rsnap):
+                                out.fail("C06.relaxed", "%s: serialize(relaxed=True) modified the caller's value object %r: now %r" % (where, rsnap, rv), "argument-modified")
+                            elif pydsdl.serialize(real, rv, relaxed=True) != xb:
+                                out.fail("C06.relaxed", "%s: serializing the same relaxed object %r twice gives different bytes" % (where, rv), "relaxed-unstable")
                             if xb != real_bytes:
                                 out.fail("C06.relaxed", "%s: relaxed form %r encodes to %s, explicit form to %s" % (where, rv, xb.hex(), real_bytes.hex()), "relaxed")
                         except Exception as ex:
@@ -222,6 +234,19 @@ class C06(Check):
             out.obs.append([len(node.types), out.stats["messages"]])
         finally:
             node.close()
+
+
+def same_object_graph(a, b) -> bool:
+    """Deep equality of two value objects incl. container types (list vs tuple vs dict), NaN-aware."""
+    if type(a) is not type(b):
+        return False
+    if isinstance(a, dict):
+        return list(a.keys()) == list(b.keys()) and all(same_object_graph(a[k], b[k]) for k in a)
+    if isinstance(a, (list, tuple)):
+        return len(a) == len(b) and all(same_object_graph(x, y) for x, y in zip(a, b))
+    if isinstance(a, float):
+        return (a != a and b != b) or (a == b and str(a) == str(b))
+    return a == b
 
 
 def poison_value(rng: random.Random, sec, full: dict):
